@@ -142,6 +142,8 @@ class ManagedRule(Rule):
             c = '%s->%s' % (self.fn.name, e.a[0].split('::')[-1])
             self.R.instance('R2', c, e.loc, 'use of a cache-provided processor')
             s = self._get(st, recv)
+            if s in ('shared-bound', 'shared-unbound'):
+                self.R.instance('R1', c, e.loc, 'use of the shared processor under the local name %s' % recv)
             if s is None:
                 self.R.violation('R2', c, e.loc, 'processor %s does not come from mZoneProcessorCache->getZoneProcessor(mZoneInfo) on this path' % recv,
                                  detail=list(tr))
@@ -266,22 +268,90 @@ class CacheRule(Rule):
 
 
 def cache_rules(R, lib):
-    R.rule('R3', 'ZoneProcessorCacheImpl::getZoneProcessor returns only processors bound to the requested zone', floor=4)
-    R.rule('R3-find', 'findUsingZoneInfo returns slot i only under slot[i].getZoneInfo() == key', floor=2)
-    R.rule('R3-index', 'round-robin index stays inside [0, SIZE)', floor=2)
+    """ZoneProcessorCacheImpl::getZoneProcessor is interpreted (E-SEQ, typed; the look-up helper, the round-robin index and the
+    slot array through their real bodies, the processors abstracted to the zone they are bound to) on every sequence of up
+    to four requests over SIZE + 1 different zones, for every instantiation in the library: each answer must be a slot of
+    the cache that is bound to the requested zone, a zone already held by a slot must be served by that slot without any
+    other slot being re-bound, and no request may read or write outside the slot array (R3, R3-find, R3-index)."""
+    import itertools
+    from .aeval import AEval, AObj, CxxModule, Raised, Ref
+    R.rule('R3', 'ZoneProcessorCacheImpl::getZoneProcessor returns only processors bound to the requested zone (interpreted on request sequences)', floor=4)
+    R.rule('R3-find', 'a zone that a slot already holds is served by that slot; no other slot is re-bound', floor=2)
+    R.rule('R3-index', 'the round-robin index stays inside the slot array on every request sequence', floor=2)
     q = 'ace_time::ZoneProcessorCacheImpl'
     fs = lib.fns(q + '::getZoneProcessor')
     if len(fs) < 2:
         raise AnalysisError('anchor moved: %s::getZoneProcessor instantiations: %d' % (q, len(fs)))
+    mod = CxxModule(lib, ['ace_time::'])
+
+    def get_zone(ev, recv, args):
+        return recv.attrs['zone']
+
+    def set_zone(ev, recv, args):
+        recv.attrs['zone'] = args[0]
+        recv.attrs['rebinds'] += 1
+        return None
+    intr = {}
+    for cls in ('ace_time::ZoneProcessor', 'ace_time::BasicZoneProcessor', 'ace_time::ExtendedZoneProcessor'):
+        intr[cls + '::getZoneInfo'] = get_zone
+        intr[cls + '::setZoneInfo'] = set_zone
+    from .cxx import nty
     for f in fs:
-        key = f.params[0][0]
-        r = CacheRule(R, f, key)
-        Engine(r).run(f.body)
-        if r.returns == 0:
-            raise AnalysisError('%s: no return analysed' % f.loc)
-        index_rule(R, lib, f)
-    for f in lib.fns(q + '::findUsingZoneInfo'):
-        find_rule(R, f)
+        cls = [c for c in lib.classes.get(q, []) if c.get('_inst') == f.inst]
+        fields = {}
+        if cls:
+            for x in cls[0].get('inner', []):
+                if x.get('kind') == 'FieldDecl':
+                    fields[x['name']] = nty(x)
+        arr = [n for n, ty in fields.items() if ty and ty.endswith(']')]
+        idx = [n for n, ty in fields.items() if ty and int_type_of(ty)]
+        if len(arr) != 1 or len(idx) != 1:
+            raise AnalysisError('%s: expected one slot array and one index in the cache, found %r / %r' % (f.loc, arr, idx))
+        ty = fields[arr[0]]
+        size = int(ty[ty.rindex('[') + 1:-1])
+        zones = ['zone%d' % k for k in range(size + 1)]
+        bad = {'R3': None, 'R3-find': None, 'R3-index': None}
+        n = 0
+        for length in range(1, 5):
+            for seq in itertools.product(zones, repeat=length):
+                slots = [AObj({'zone': None, 'rebinds': 0}, oid='slot%d' % k, cls='processor') for k in range(size)]
+                cache = AObj({arr[0]: slots, idx[0]: 0}, oid='cache', cls=q, ftypes={idx[0]: int_type_of(fields[idx[0]])})
+                for step, z in enumerate(seq):
+                    held = [s for s in slots if s.attrs['zone'] == z]
+                    before = [s.attrs['rebinds'] for s in slots]
+                    try:
+                        ev = AEval(module=mod, intrinsics=intr, typed=True, max_steps=5000)
+                        r = ev.call_function(f.name, [z], recv=cache, chosen=CxxModule._Fn(f))
+                    except IndexError:
+                        bad['R3-index'] = bad['R3-index'] or 'requests %s: request %d reads or writes outside the %d slots' % (list(seq), step + 1, size)
+                        break
+                    except Raised as x_:
+                        bad['R3'] = bad['R3'] or 'requests %s: request %d raises %s' % (list(seq), step + 1, x_.what)
+                        break
+                    n += 1
+                    if isinstance(r, Ref):
+                        r = r.get()
+                    if not any(r is s for s in slots):
+                        bad['R3'] = bad['R3'] or 'requests %s: request %d is answered with %r, which is not a slot of the cache' % (list(seq), step + 1, r)
+                        break
+                    if r.attrs['zone'] != z:
+                        bad['R3'] = bad['R3'] or 'requests %s: request %d (for %s) is answered with a processor bound to %s' % (list(seq), step + 1, z, r.attrs['zone'])
+                    if held and (r is not held[0] or [s.attrs['rebinds'] for s in slots] != before):
+                        bad['R3-find'] = bad['R3-find'] or 'requests %s: %s is already held by %s, yet request %d is answered by %s and %d slot(s) are re-bound' % (
+                            list(seq), z, held[0].oid, step + 1, r.oid, sum(1 for a_, b_ in zip(before, [s.attrs['rebinds'] for s in slots]) if a_ != b_))
+                    cur = cache.attrs[idx[0]]
+                    if not (isinstance(cur, int) and 0 <= cur < size):
+                        bad['R3-index'] = bad['R3-index'] or 'requests %s: after request %d the index is %r, outside [0, %d)' % (list(seq), step + 1, cur, size)
+        for rid in ('R3', 'R3-find', 'R3-index'):
+            c = '%s[%s,%s]' % (f.name, 'basic' if 'Basic' in (f.inst or '') else 'extended', (f.inst or '').split(',')[0].strip())
+            R.instance(rid, c, f.loc, '%d interpreted requests, %d slots' % (n, size), n=2)
+            if bad[rid]:
+                R.violation(rid, c, f.loc, bad[rid])
+
+
+def int_type_of(ty):
+    from .cxx import int_type
+    return int_type(ty)
 
 
 def find_rule(R, f):
@@ -1015,7 +1085,9 @@ SELFTEST = [
     dict(id='cache-index-off-by-one', file='src/ace_time/ZoneProcessorCache.h',
          find='if (mCurrentIndex >= SIZE) mCurrentIndex = 0;', replace='if (mCurrentIndex > SIZE) mCurrentIndex = 0;', rule='R3-index'),
     dict(id='cache-find-wrong-test', file='src/ace_time/ZoneProcessorCache.h',
-         find='if (zoneInfo == zoneInfoKey) {', replace='if (zoneInfo != nullptr) {', rule='R3-find'),
+         find='if (zoneInfo == zoneInfoKey) {', replace='if (zoneInfo != nullptr) {', rule='R3'),
+    dict(id='cache-find-never-hits', file='src/ace_time/ZoneProcessorCache.h',
+         find='if (zoneInfo == zoneInfoKey) {', replace='if (zoneInfo == zoneInfoKey && i > SIZE) {', rule='R3-find'),
     dict(id='flag-not-cleared-extended', file='src/ace_time/ExtendedZoneProcessor.h',
          find='      mTransitionStorage.init();\n      mIsFilled = false;\n', replace='      mTransitionStorage.init();\n', rule='R4', construct='ExtendedZoneProcessor::init'),
     dict(id='flag-not-cleared-basic', file='src/ace_time/BasicZoneProcessor.h',
